@@ -279,7 +279,7 @@ def sample_repr(sc):
 
 
 GROUP_KEYS = ("oracle", "field", "exc", "got", "type")
-BUDGET = {"quick": 2500, "thorough": 30000}
+BUDGET = {"quick": 9000, "thorough": 30000}
 WALL_CAP = {"quick": 240, "thorough": 3000}
 RULE = (
     "run i derives (controller parameters, metric history of 1..12 epochs on the k/8 grid, user entries, formats, layout) from "
